@@ -82,11 +82,13 @@ func vfC12(w *vfWorld) {
 	cs.Age = age.String()
 	// token lifetime: long (validation passes at use) or short (validation fails at use)
 	ttlLong := !t.Prob("c12.ttlshort", 250)
+	f19 := false
 	if idp.OmitIDOnRefresh {
 		// a refresh answer without id_token leaves the login's ID token in the session, and that one is verified after every
-		// refresh: with an ID token that has expired by then the product signs the user out although the refresh succeeded.
-		// Whether that is what "refreshed before use" asks for is not judged here - the ID token outlives the run
+		// refresh. In the general scenarios the ID token outlives the run; a dedicated sequential scenario (finding F19) looks
+		// at the case where it has expired by the time of the refresh
 		ttlLong = true
+		f19 = t.Prob("c12.f19", 300)
 	}
 	if ttlLong {
 		idp.IDTokenTTL = age + 3*time.Hour
@@ -120,6 +122,27 @@ func vfC12(w *vfWorld) {
 	r0 := b.GET(reps[0], "/app/page")
 	if r0.Status != 200 || len(r0.UpHits) != 1 {
 		w.fatalf("c12: first authenticated request not served: %d", r0.Status)
+	}
+	if f19 {
+		// F19: refresh supported and answered, but without id_token, and the login's ID token (lifetime shorter than the
+		// refresh period) has expired: one sequential request, nothing else going on
+		cs.Profile, cs.Faults, cs.Tasks = "f19", "none", 1
+		w.Sleep(idp.IDTokenTTL + R + 10*time.Second)
+		mark := idp.mark()
+		r := b.GET(reps[0], "/app/after-refresh-without-id-token")
+		ok := 0
+		for _, c := range idp.since(mark, "") {
+			if c.Endpoint == "token:refresh" && strings.HasPrefix(c.Outcome, "200") {
+				ok++
+			}
+		}
+		w.nontriv = true
+		w.distKey = "f19/" + cs.Store
+		if ok == 1 && len(r.UpHits) == 0 {
+			w.violate("C12", "refreshed-but-not-served", "refresh-answer-without-id-token/login-id-token-expired",
+				"the session was refreshed at the identity provider (one successful refresh call, new access token) but the request was answered %d and the session dropped: the refresh answer carried no id_token and the ID token of the login has expired", r.Status)
+		}
+		return
 	}
 	g0 := 0
 
